@@ -161,6 +161,21 @@ func dischargeOne(o *Obligation, tmpDir string, idx int, timeoutSec int, keep bo
 				}
 			}
 		}
+		// a second opinion: an inconsistency in the assumptions (a vacuous proof) is what the cover is
+		// there to find, so the other two solvers get a few seconds to refute the path as well
+		cctx2, cancel2 := context.WithCancel(ctx)
+		ch2 := make(chan runOut, 2)
+		for _, s := range solvers[1:] {
+			go func(s solverSpec) { ch2 <- runSolver(cctx2, s, file, 5) }(s)
+		}
+		for range solvers[1:] {
+			r2 := <-ch2
+			if decide(r2) {
+				cancel2()
+				return r
+			}
+		}
+		cancel2()
 		r.Status, r.Solver, r.Ms, r.Output = "cover-unknown", ro.solver, ro.ms, firstLine(ro.out)
 		return r
 	}
